@@ -52,7 +52,8 @@ def generate(rng, tier, idx):
             configs.append({'type': vt, 'trunc': t})
     patterns = ['nan', 'noise'] + [rng.choice(['big', 'negbig', 'ones', 'zero'])]
     return {'table': table, 'ops': configs, 'poisons': patterns,
-            'pseed': rng.randrange(1000)}
+            'pseed': rng.randrange(1000), 'prefit': rng.random() < 0.3,
+            'prefit_trunc': rng.randint(1, d)}
 
 
 def simplify(run):
@@ -83,15 +84,20 @@ def execute(run):
         ctx.probes['exact_tie_in_pairwise_abs_tau'] += 1
     if d == 2:
         ctx.probes['d_equals_2'] += 1
+    prefit = None
+    if run.get('prefit'):
+        prefit = (vinelib.prefit_table(run['table']), run.get('prefit_trunc', 2))
+        ctx.probes['second_fit_of_a_live_vine'] += 1
     for i, cfg in enumerate(run['ops']):
         ctx.op_index = i
         sigs = []
         for p in run['poisons']:
             ctx.stats['fits'] += 1
-            vine, out = vinelib.fit_vine(cfg['type'], cfg['trunc'], df, p, run['pseed'])
+            vine, out = vinelib.fit_vine(cfg['type'], cfg['trunc'], df, p, run['pseed'],
+                                         prefit=prefit)
             ctx.faults['F3_allocator_garbage:' + p] += 1
             cond = {'vine_type': cfg['type'], 'd': d, 'truncated': cfg['trunc'], 'poison': p,
-                    'pattern': run['table'].get('pattern'),
+                    'refit': prefit is not None, 'pattern': run['table'].get('pattern'),
                     'data_ties': bool(run['table'].get('round'))}
             if out[0] != 'ok':
                 # a fit that raises leaves no fitted vine to speak about; it is gated only for
